@@ -64,7 +64,12 @@ class _ContextLifter(DefaultTransformVisitor):
         for e in ctx_exprs:
             name = gensym.fresh('ctx')
             self.expr_to_name[e] = name
-            self.name_to_expr[name] = e
+            # Bind the value the analysis found rather than the expression.
+            # Evaluated again at the top of the function, its operands would
+            # round under the function's context instead of the one in force
+            # at the site (`REAL` for a `with` item), and it would run ahead of
+            # the definitions it reads.
+            self.name_to_expr[name] = ForeignVal(eval_info.by_expr[e], e.loc)
 
     def apply(self) -> FuncDef:
         return self._visit_function(self.func, None)
